@@ -777,6 +777,11 @@ impl Scenario for C04Multi {
             p.producers.truncate(1);
             p.producers[0].truncate(1);
         }
+        // the log channel: a listener may also be *added* while events are being sent (it subscribes at the log's current
+        // end: whatever lands in its range it must be woken for)
+        if p.kind == Kind::MultiMmapLog && p.listeners < p.max_streams && rng.chance(1, 2) {
+            p.churn = vec![ChurnOp::Add];
+        }
         p
     }
     fn body(&self, p: &MultiParams) -> Option<Body> {
@@ -785,6 +790,18 @@ impl Scenario for C04Multi {
             let data = multi_body(&p2, false, false);
             if ctx::aborted() {
                 return;
+            }
+            // the log channel says itself whether a listener still has something in its range: every producer has returned,
+            // every driven listener is parked without a pending wake -- and pending_items_count() is not 0
+            if p2.kind == Kind::MultiMmapLog && data.stuck.is_empty() && data.pending_at_quiescence > 0 {
+                let total_sends = p2.producers.iter().map(|o| o.len()).sum::<usize>();
+                let entry = p2.producers.first().and_then(|o| o.first()).map(|e| e.name()).unwrap_or("send");
+                ctx::report(
+                    "C04",
+                    "pending_at_quiescence",
+                    format!("multi_noflush/multi.mmap_log/{}/ms{}s{}/{}/{}/pending_at_quiescence", entry, p2.max_streams, p2.listeners, if p2.churn.is_empty() { "static" } else { "listener_added" }, if total_sends == 1 { "n1" } else if total_sends == 2 { "n2" } else { "n3+" }),
+                    format!("all producers returned and every driven listener (also the one added meanwhile) is parked without a pending wake, yet pending_items_count() == {}: an accepted event lies in a listener's range and nobody was woken for it", data.pending_at_quiescence),
+                );
             }
             if let Some((li, missing)) = data.stuck.first() {
                 let last = *missing.last().unwrap();
